@@ -103,7 +103,48 @@ type incarnation struct {
 
 var errStart = errors.New("start failed")
 
-func newIncarnation(st *qstore.Store, consumers int, auto bool, capacity int64) (*incarnation, error) {
+// errStartStuck: Start did not return. The frames of the blocked goroutines are in the message.
+var errStartStuck = errors.New("start never returned")
+
+// startBound is the fixed, generous bound on Start (recovery of a handful of requests from an in-memory
+// store takes microseconds; nothing else runs in the incarnation yet).
+const startBound = 20 * time.Second
+
+// parkCancel is the context of the scripted enqueues when block_on_overflow is set: the moment the queue
+// is about to park the caller in its space wait (it evaluates ctx.Done() there), the context ends, so a
+// blocked enqueue returns at once with the context's error, i.e. it is a refusal as far as the script is
+// concerned, and the script stays a deterministic sequence of operations.
+type parkCancel struct {
+	context.Context
+	cancel context.CancelFunc
+}
+
+func (p parkCancel) Done() <-chan struct{} {
+	var pcs [24]uintptr
+	n := runtime.Callers(2, pcs[:])
+	fr := runtime.CallersFrames(pcs[:n])
+	for {
+		f, more := fr.Next()
+		if strings.HasSuffix(f.Function, ".Wait") && strings.Contains(f.Function, "go.opentelemetry.io/collector/") {
+			p.cancel()
+			break
+		}
+		if !more {
+			break
+		}
+	}
+	return p.Context.Done()
+}
+
+func offerCtx(block bool) (context.Context, context.CancelFunc) {
+	if !block {
+		return context.Background(), func() {}
+	}
+	ctx, cancel := context.WithCancel(context.Background())
+	return parkCancel{Context: ctx, cancel: cancel}, cancel
+}
+
+func newIncarnation(st *qstore.Store, consumers int, auto bool, capacity int64, block bool) (*incarnation, error) {
 	in := &incarnation{st: st, entered: make(chan *entry, 256)}
 	in.auto.Store(auto)
 	cfg := exporterhelper.NewDefaultQueueConfig()
@@ -111,6 +152,7 @@ func newIncarnation(st *qstore.Store, consumers int, auto bool, capacity int64) 
 	cfg.StorageID = &id
 	cfg.NumConsumers = consumers
 	cfg.QueueSize = capacity
+	cfg.BlockOnOverflow = block
 	rcfg := configretry.NewDefaultBackOffConfig()
 	rcfg.InitialInterval = time.Hour
 	rcfg.MaxInterval = time.Hour
@@ -135,8 +177,19 @@ func newIncarnation(st *qstore.Store, consumers int, auto bool, capacity int64) 
 	if err != nil {
 		return nil, err
 	}
-	if err := exp.Start(context.Background(), qstore.NewHost(st)); err != nil {
-		return nil, fmt.Errorf("%w: %v", errStart, err)
+	started := make(chan error, 1)
+	go func() { started <- exp.Start(context.Background(), qstore.NewHost(st)) }()
+	tm := time.NewTimer(startBound)
+	defer tm.Stop()
+	select {
+	case err := <-started:
+		if err != nil {
+			return nil, fmt.Errorf("%w: %v", errStart, err)
+		}
+	case <-tm.C:
+		buf := make([]byte, 1<<20)
+		buf = buf[:runtime.Stack(buf, true)]
+		return nil, fmt.Errorf("%w: %s", errStartStuck, strings.Join(driver.BlockedRepoFrames(string(buf)), "; "))
 	}
 	in.exp = exp
 	return in, nil
@@ -175,17 +228,18 @@ func (in *incarnation) abandon() {
 }
 
 type runResult struct {
-	accepted  map[string]bool
-	finalized map[string]bool
-	image     map[string][]byte
-	ops       int
-	died      bool
-	trace     []string
-	unsettled int
-	badBytes  []string
-	unknown   []string
-	stuck     string
-	phase     string // what the driver was doing when the store died
+	accepted   map[string]bool
+	finalized  map[string]bool
+	image      map[string][]byte
+	ops        int
+	died       bool
+	trace      []string
+	unsettled  int
+	badBytes   []string
+	unknown    []string
+	stuck      string
+	startStuck string // Start (recovery) of a scripted incarnation never returned: blocked frames
+	phase      string // what the driver was doing when the store died
 }
 
 // settleWait bounds the driver's wait for the next expected event. It is scheduling only (it keeps the
@@ -209,12 +263,15 @@ const enoughLosses = 60
 
 // runScript executes one script on a store that already holds `image`; recovered is the number of
 // requests a fault-free recovery of the image hands off (the model's initial queue length).
-func runScript(known map[string][]byte, image map[string][]byte, recovered int, sc []step, consumers, crashAt int, capacity int64) *runResult {
+func runScript(known map[string][]byte, image map[string][]byte, recovered int, sc []step, consumers, crashAt int, capacity int64, block bool) *runResult {
 	r := &runResult{accepted: map[string]bool{}, finalized: map[string]bool{}}
 	st := qstore.New(image, crashAt)
-	in, err := newIncarnation(st, consumers, false, capacity)
+	in, err := newIncarnation(st, consumers, false, capacity, block)
 	r.phase = "start+recovery"
 	if err != nil {
+		if errors.Is(err, errStartStuck) {
+			r.startStuck = err.Error()
+		}
 		r.trace = append(r.trace, "start error: "+err.Error())
 		r.image, r.ops, r.died = st.Image(), st.Ops(), st.Dead()
 		return r
@@ -279,7 +336,9 @@ func runScript(known map[string][]byte, image map[string][]byte, recovered int, 
 		r.phase = s.Kind
 		switch s.Kind {
 		case "E":
-			err := in.exp.ConsumeLogs(context.Background(), mk(s.ID))
+			ctx, cancel := offerCtx(block)
+			err := in.exp.ConsumeLogs(ctx, mk(s.ID))
+			cancel()
 			if err == nil {
 				r.accepted[s.ID] = true
 				queued++
@@ -326,7 +385,11 @@ func runScript(known map[string][]byte, image map[string][]byte, recovered int, 
 				settleExpired()
 			}
 			res := make(chan error, 1)
-			go func(id string) { res <- in.exp.ConsumeLogs(context.Background(), mk(id)) }(s.ID)
+			go func(id string) {
+				ctx, cancel := offerCtx(block)
+				defer cancel()
+				res <- in.exp.ConsumeLogs(ctx, mk(id))
+			}(s.ID)
 			// scheduling only: give an implementation without the lock the chance to get its calls in
 			tm := time.NewTimer(3 * time.Millisecond)
 			select {
@@ -408,8 +471,11 @@ func runScript(known map[string][]byte, image map[string][]byte, recovered int, 
 				break
 			}
 			r.phase = "restart:start+recovery"
-			in2, err := newIncarnation(st, consumers, false, capacity)
+			in2, err := newIncarnation(st, consumers, false, capacity, block)
 			if err != nil {
+				if errors.Is(err, errStartStuck) {
+					r.startStuck = err.Error()
+				}
 				r.trace = append(r.trace, "start error: "+err.Error())
 				r.image, r.ops, r.died = st.Image(), st.Ops(), st.Dead()
 				return r
@@ -441,7 +507,7 @@ type drainResult struct {
 func drainClean(known map[string][]byte, image map[string][]byte) *drainResult {
 	d := &drainResult{}
 	st := qstore.New(image, -1)
-	in, err := newIncarnation(st, 1, true, largeCapacity) // the judging incarnation always has room (a restart with a larger queue_size)
+	in, err := newIncarnation(st, 1, true, largeCapacity, false) // the judging incarnation always has room (a restart with a larger queue_size)
 	if err != nil {
 		d.why = "start: " + err.Error()
 		return d
@@ -556,6 +622,7 @@ type explorer struct {
 	stride    []int // boundary stride per depth
 	rng       *rand.Rand
 	consumers int
+	block     bool  // block_on_overflow of the scripted incarnations (enqueues that would park are cancelled at once)
 	capacity  int64 // queue_size of the scripted incarnations: small values make enqueues (and the recovery's re-enqueues) meet a full queue
 	scriptID  string
 	seen      map[string]bool
@@ -577,6 +644,23 @@ func setKey(m map[string]bool) string {
 	}
 	sort.Strings(ks)
 	return strings.Join(ks, ",")
+}
+
+// reportStartStuck: the start (recovery) of a scripted incarnation on a durable image never returned, so
+// nothing stored in that image is ever handed to the export function by an incarnation with this
+// configuration, however often it is restarted.
+func (x *explorer) reportStartStuck(r *runResult, path []string, sc []step, kind string) {
+	lossesReported.Add(1)
+	where := "?"
+	if i := strings.Index(r.startStuck, "queuebatch."); i >= 0 {
+		where = r.startStuck[i:]
+		if j := strings.IndexAny(where, " ;"); j > 0 {
+			where = where[:j]
+		}
+	}
+	x.c.Violation("recovery-stuck", fmt.Sprintf("the start of an incarnation (queue_size=%d block_on_overflow=%v consumers=%d) on the stored image of its predecessor never returned, so no stored request is handed off: %s (script %q, deaths at %v, phase %s)", x.capacity, x.block, x.consumers, r.startStuck, x.scriptID, path, r.phase),
+		map[string]any{"script": x.scriptID, "consumers": x.consumers, "queue_size": x.capacity, "block_on_overflow": x.block, "boundaries": path, "phase": r.phase, "trace": r.trace, "blocked": r.startStuck, "run": kind, "next_script": scriptString(sc)},
+		"phase", r.phase, "block", fmt.Sprint(x.block), "blocked_in", where)
 }
 
 func (x *explorer) register(ids ...string) {
@@ -661,8 +745,12 @@ func (x *explorer) explore(image map[string][]byte, carry map[string]bool, depth
 			x.register(s.ID)
 		}
 	}
-	base := runScript(x.known, image, len(d.ids), sc, x.consumers, -1, x.capacity)
+	base := runScript(x.known, image, len(d.ids), sc, x.consumers, -1, x.capacity, x.block)
 	c.Observe("incarnation_runs", 1)
+	if base.startStuck != "" {
+		x.reportStartStuck(base, path, sc, "fault-free")
+		return
+	}
 	if base.stuck != "" {
 		c.Note("fault-free run stuck: %s script=%s", base.stuck, scriptString(sc))
 		c.Inconclusive("fault-free run stuck")
@@ -676,11 +764,15 @@ func (x *explorer) explore(image map[string][]byte, carry map[string]bool, depth
 		if stride > 1 && b%stride != (int(x.c.Seed)+depth)%stride && b != base.ops {
 			continue
 		}
-		r := runScript(x.known, image, len(d.ids), sc, x.consumers, b, x.capacity)
+		r := runScript(x.known, image, len(d.ids), sc, x.consumers, b, x.capacity, x.block)
 		c.Eval()
 		c.Observe("incarnation_runs", 1)
 		c.Observe("crash_runs", 1)
 		c.Observe("unsettled_steps", int64(r.unsettled))
+		if r.startStuck != "" {
+			x.reportStartStuck(r, append(append([]string{}, path...), fmt.Sprint(b)), sc, "crashed")
+			continue
+		}
 		if r.stuck != "" {
 			c.Note("crash run stuck: %s script=%s", r.stuck, scriptString(sc))
 			c.Inconclusive("crash run stuck")
@@ -753,6 +845,11 @@ func run(c *driver.Ctx) {
 		if g%3 == 1 {
 			x.capacity = int64(1 + rng.Intn(3))
 			x.scriptID += fmt.Sprintf(" queue_size=%d", x.capacity)
+			if g%6 == 1 {
+				x.block = true
+				x.scriptID += " block_on_overflow"
+				c.Observe("scripts_with_block_on_overflow", 1)
+			}
 			c.Observe("scripts_with_small_queue", 1)
 		}
 		c.Observe("scripts", 1)
